@@ -711,14 +711,16 @@ Definition is_pub (p : wpc) : Prop := match p with WPublish _ _ _ _ => True | _ 
 
 Lemma wp_ok_mono s s' p :
   started s' = started s -> clock s <= clock s' -> wp_ok s p -> wp_ok s' p.
-Proof.
-  intros Hst Hc. destruct p; simpl; auto; try lia. rewrite Hst. intuition lia.
+Proof using.
+  intros Hst Hc. destruct p; simpl; auto.
+  - intros H. eapply Nat.le_trans; eauto.
+  - rewrite Hst. intros (A & B & C1 & D). repeat split; auto. eapply Nat.le_trans; eauto.
 Qed.
 
 Lemma settled_iff s s' :
   L c s' = L c s -> (forall x, In x (F c s') <-> In x (F c s)) ->
   forall x, settled c s' x <-> settled c s x.
-Proof. intros HL HF x. unfold settled. rewrite HL, HF. tauto. Qed.
+Proof using. intros HL HF x. unfold settled. rewrite HL, HF. reflexivity. Qed.
 
 Lemma core_frame s s' :
   inv_core s ->
@@ -835,7 +837,7 @@ Proof.
 Qed.
 
 Lemma pubs_ext s s' x : wp s' = wp s -> (pubs s' x <-> pubs s x).
-Proof. unfold pubs. intros ->. tauto. Qed.
+Proof using. unfold pubs. intros ->. reflexivity. Qed.
 
 (* one lemma for the four outcomes of decide on the head t of todo:
    W = t stays in L (WAITING), P = t goes in flight (PENDING), X = t is settled *)
@@ -1215,21 +1217,22 @@ Proof.
   destruct acc; [reflexivity|]. destruct (Nat.eqb nb _); reflexivity.
 Qed.
 Lemma drained_next_decide todo acc nb : ~ drained (next_decide todo acc nb).
-Proof.
-  unfold next_decide, pass_end. destruct todo; [|simpl; tauto].
-  destruct acc; [simpl; tauto|]. destruct (Nat.eqb nb _); simpl; tauto.
+Proof using.
+  unfold next_decide, pass_end. destruct todo; [|exact (fun H => H)].
+  destruct acc; [exact (fun H => H)|]. destruct (Nat.eqb nb _); exact (fun H => H).
 Qed.
 Lemma sent_after_spawn k : sent c (after_spawn c k) = 0.
 Proof.
   unfold after_spawn. destruct (Nat.eqb _ _); auto. destruct (order c) as [[|]|]; auto.
 Qed.
 Lemma drained_after_spawn k : ~ drained (after_spawn c k).
-Proof.
-  unfold after_spawn. destruct (Nat.eqb _ _); simpl; auto. destruct (order c) as [[|]|]; simpl; auto.
+Proof using.
+  unfold after_spawn. destruct (Nat.eqb _ _); [|exact (fun H => H)].
+  destruct (order c) as [[|]|]; exact (fun H => H).
 Qed.
 
 Lemma aux_mtrans s s' : inv_aux s -> mtrans c s s' -> inv_aux s'.
-Proof.
+Proof using.
   intros A T. pose proof (inv_count _ A) as Hc. pose proof (inv_drained _ A) as Hd.
   unfold cnt in *.
   destruct T; rewrite H in *; simpl in Hc, Hd.
@@ -1243,19 +1246,19 @@ Proof.
     + unfold cnt. simpl. pose proof (Bw_upd c (wp s) k WBoot Hk) as B.
       rewrite Hnone in B by lia. simpl in B. rewrite sent_after_spawn. lia.
     + intros D. now apply drained_after_spawn in D.
-  - split; simpl; auto using (inv_wnone _ A); try tauto. discriminate.
+  - split; simpl; auto using (inv_wnone _ A); try discriminate; try (now intros []).
   - split; simpl; auto using (inv_wnone _ A).
     + intros k. destruct r; try discriminate; intros E; now apply next_decide_not_mstart in E.
     + unfold cnt. simpl. destruct r; simpl; rewrite ?sent_next_decide; lia.
-    + destruct r; simpl; try tauto; intros D; now apply drained_next_decide in D.
+    + destruct r; simpl; try (now intros []); intros D; now apply drained_next_decide in D.
   - split; simpl; auto using (inv_wnone _ A).
     + intros k E; now apply next_decide_not_mstart in E.
     + unfold cnt. simpl. rewrite queued_app, app_length, sent_next_decide. simpl. lia.
     + intros D; now apply drained_next_decide in D.
-  - split; simpl; auto using (inv_wnone _ A); try tauto. discriminate.
-  - split; simpl; auto using (inv_wnone _ A); try tauto. discriminate.
-  - split; simpl; auto using (inv_wnone _ A); try tauto. discriminate.
-  - split; simpl; auto using (inv_wnone _ A); try tauto. discriminate.
+  - split; simpl; auto using (inv_wnone _ A); try discriminate; try (now intros []).
+  - split; simpl; auto using (inv_wnone _ A); try discriminate; try (now intros []).
+  - split; simpl; auto using (inv_wnone _ A); try discriminate; try (now intros []).
+  - split; simpl; auto using (inv_wnone _ A); try discriminate; try (now intros []).
   - (* MQJoin *)
     destruct (Nat.eqb_spec (nworkers c) 0); split; simpl; auto using (inv_wnone _ A);
       try discriminate; unfold cnt; simpl; try lia; intros _; lia.
